@@ -366,6 +366,25 @@ def check_hierarchies() -> List[str]:
     return problems[:5]
 
 
+def _all_saved(scope: Dict[str, Any]) -> List[str]:
+    """Every corpus path mentioned in the worker results of this run."""
+    out: List[str] = []
+
+    def walk(x: Any) -> None:
+        if isinstance(x, dict):
+            for k, v in x.items():
+                if k == "saved" and isinstance(v, str):
+                    out.append(v)
+                else:
+                    walk(v)
+        elif isinstance(x, (list, tuple)):
+            for v in x:
+                walk(v)
+
+    walk(scope.get("ALL_RESULTS", []))
+    return out
+
+
 # --------------------------------------------------------------------------- main
 
 
@@ -399,7 +418,9 @@ def main() -> int:
         f_sdk = [pool.submit(task_sdk, base + 30000 + i) for i in range(n_sdk)]
 
         # ---- 2 acceptance
+        ALL_RESULTS: List[Any] = []
         rows = [f.result() for f in f_accept]
+        ALL_RESULTS.append(rows)
         ok = sum(r["ok"] for r in rows)
         rate = ok / len(rows)
         print(f"[2] acceptance of random valid models: {ok}/{len(rows)} = {100 * rate:.1f} %  "
@@ -418,7 +439,9 @@ def main() -> int:
 
         # ---- 3 mutants
         verdicts: Dict[str, collections.Counter] = collections.defaultdict(collections.Counter)
-        for r in [f.result() for f in f_mut]:
+        mut_results = [f.result() for f in f_mut]
+        ALL_RESULTS.append(mut_results)
+        for r in mut_results:
             for row in r.get("rows", []):
                 verdicts[row["rule"]][row["verdict"]] += 1
                 if row["verdict"] == "accepted":
@@ -439,6 +462,7 @@ def main() -> int:
         # ---- 4 generation
         for title, futs, must_succeed in (("default features", f_gen, True), ("Features.everything() (hazards on)", f_haz, False)):
             results = [f.result() for f in futs]
+            ALL_RESULTS.append(results)
             per_target: Dict[str, collections.Counter] = collections.defaultdict(collections.Counter)
             seconds: Dict[str, List[float]] = collections.defaultdict(list)
             accepted = 0
@@ -482,6 +506,7 @@ def main() -> int:
 
         # ---- 5 SDK
         results = [f.result() for f in f_sdk]
+        ALL_RESULTS.append(results)
         good_sdk = [r for r in results if "stat" in r]
         stat: collections.Counter = collections.Counter()
         for r in good_sdk:
@@ -516,6 +541,11 @@ def main() -> int:
         if stat.get("verify_differs"):
             findings.setdefault("C08 oracle and generated verification disagree", {"count": stat["verify_differs"], "saved": ""})
 
+    # keep one reproducer per finding, drop the other files written by this run
+    keep = {f["saved"] for f in findings.values() if f.get("saved")}
+    for name in sorted(set(_all_saved(locals()))):
+        if name not in keep and (VERIF / name).exists() and name.startswith("corpus/mm/") and not name.startswith("corpus/mm/rejected-"):
+            (VERIF / name).unlink()
     print(f"findings about the project (not failures of the library): {len(findings)}")
     for key in sorted(findings):
         f = findings[key]
